@@ -115,7 +115,7 @@ def script(mode, k, n, autoprove, flavour="mul", chdir=False):
          "def _done(k=1):",
          "    open('executed', 'a').write('s' * k)",
          "    open('counts', 'w').write(json.dumps(_cnt))",
-         "rt.autoprove = %s" % autoprove,
+         "rt.autoprove = %s" % (False if autoprove == "off-then-on" else autoprove),
          "import builtins",
          "if not hasattr(builtins, 'exit'): site.setquit()"]
     if n > 50:
@@ -130,6 +130,8 @@ def script(mode, k, n, autoprove, flavour="mul", chdir=False):
         if i < n:
             L.append(stm[i % len(stm)].format(i=i, a=i + 2, b=i + 3))
             L.append("_done()")
+            if i == 0 and autoprove == "off-then-on":
+                L.append("rt.autoprove = True      # switched off at the top, the script decides later that it wants a proof")
     return "\n".join(L) + "\n"
 
 
@@ -172,11 +174,15 @@ def run_case(case, tmp):
     want_exec = expected_executed(mode, k, n)
     if nexec != want_exec:
         raise core.HarnessError("script executed %d statements, model says %d (mode %s): %s" % (nexec, want_exec, mode, r.stderr[-300:]))
-    tag = "%s on %s (autoprove %s, %d of %d %sstatements executed)" % (mode, backend, "on" if autoprove else "off", nexec, n,
+    autoprove_label = autoprove
+    if autoprove == "off-then-on":
+        autoprove = nexec >= 1           # what the switch holds when the script ends
+    tag = "%s on %s (autoprove %s, %d of %d %sstatements executed)" % (mode, backend, autoprove_label if autoprove_label == "off-then-on" else "on" if autoprove else "off", nexec, n,
                                                                      "" if flavour == "mul" else flavour + " ")
     cnt = json.loads(rd("counts")) if exists("counts") else {"cons": 0, "cons_ab": 0, "vars": 0}
     if flavour == "mul" and (cnt["cons"], cnt["vars"]) != (nexec, 3 * nexec):
-        raise core.HarnessError("interface tap counted %r for %d product statements" % (cnt, nexec))
+        return "%s: the backend received %d constraints / %d values for %d product statements (1 constraint, 3 values each)" % (
+            tag, cnt["cons"], cnt["vars"], nexec), "trace-incomplete-at-backend"
     # exit status
     if status == "sigint":
         ok_status = r.returncode in (-2, 130, 1)
@@ -301,6 +307,8 @@ def run(ctx):
             # the same termination with other kinds of statements (assertions, comparisons, divisions, bit decompositions)
             if ctx.tier != "quick" or k in (0, n):
                 cases.append({"mode": mode, "k": k, "n": n + 5 if ctx.tier == "quick" else n + 2, "backend": backend, "autoprove": ap, "flavour": "mixed"})
+            if ap and k in (0, n):
+                cases.append({"mode": mode, "k": k, "n": n, "backend": backend, "autoprove": "off-then-on"})
             if k == n and ap and backend != "qaptools":      # qaptools opens its (relative) work files when it is initialised
                 cases.append({"mode": mode, "k": k, "n": n, "backend": backend, "autoprove": ap, "chdir": True})
     jobs = [dict(cases=cases[i::16]) for i in range(16)]
